@@ -5,6 +5,8 @@ use acme_common::error::Error;
 
 async fn gen_key_pair(cert: &Certificate) -> Result<KeyPair, Error> {
 	let key_pair = gen_keypair(cert.key_type)?;
+	#[cfg(feature = "breard_r_acmed_verif")]
+	crate::verif::emit("KeyPair", serde_json::json!({"how": "generated"}));
 	storage::set_keypair(&cert.file_manager, &key_pair).await?;
 	Ok(key_pair)
 }
@@ -16,6 +18,12 @@ async fn read_key_pair(cert: &Certificate) -> Result<KeyPair, Error> {
 pub async fn get_key_pair(cert: &Certificate) -> Result<KeyPair, Error> {
 	if cert.kp_reuse {
 		match read_key_pair(cert).await {
+			#[cfg(feature = "breard_r_acmed_verif")]
+			Ok(key_pair) => {
+				crate::verif::emit("KeyPair", serde_json::json!({"how": "reused"}));
+				Ok(key_pair)
+			}
+			#[cfg(not(feature = "breard_r_acmed_verif"))]
 			Ok(key_pair) => Ok(key_pair),
 			Err(_) => gen_key_pair(cert).await,
 		}
